@@ -37,7 +37,9 @@ var EntryU = []gen.Entry{
 }
 
 // ProbeU are the serials of probe certificates.
-var ProbeU = []string{"05", "06", "0500", "80", "7fffffffffffffff", "8000000000000000", "ff00ff00ff00ff00ff00ff00ff00ff00ff00ff00", "0a", "04", "07", "ff80", "50"}
+var ProbeU = []string{"05", "06", "0500", "80", "7fffffffffffffff", "8000000000000000", "ff00ff00ff00ff00ff00ff00ff00ff00ff00ff00", "0a", "04", "07", "ff80", "50",
+	// decimal 15, 110, 105: "<name>1"+"5", "<name>1"+"10", "<name>10"+"5" read as "<name>"+serial (DigitNames)
+	"0f", "6e", "69"}
 
 // listedBy reports whether entry index e lists probe index p.
 func listedBy(e, p int) bool {
@@ -67,6 +69,10 @@ type Config struct {
 	ExpiredSigners bool `json:"expired_signers,omitempty"`
 	// T61Names: the issuing CAs' names are TeletexStrings that differ in one Latin-1 character only
 	T61Names bool `json:"t61_names,omitempty"`
+	// DigitNames: the issuing CAs' names differ only in digits appended to the attribute that ENDS the name's string
+	// form ("...O=verif", "...O=verif1", "...O=verif10"): name + serial concatenations of different issuers coincide
+	// ("verif1"+"5" = "verif"+"15") unless the two are kept apart
+	DigitNames bool `json:"digit_names,omitempty"`
 }
 
 // CDPSpec is one distribution-point set.
@@ -149,6 +155,10 @@ func issuerName(base string, i int) gen.NameSpec {
 		default:
 			return gen.NameSpec{{{T: "O", V: "verif"}}, {{T: "CN", V: base + " Z\u00e4rich ca", Kind: "t61"}}}
 		}
+	}
+	if strings.HasPrefix(base, "digit:") {
+		base = base[6:]
+		return gen.NameSpec{{{T: "O", V: "verif" + []string{"", "1", "10"}[i%3]}}, {{T: "CN", V: base + " ca"}}}
 	}
 	switch i {
 	case 0:
@@ -590,6 +600,8 @@ func Run(spec Spec, x *ev.Ctx, obs Observer) (*Result, error) {
 		nameBase := w.base
 		if spec.Config.T61Names {
 			nameBase = "t61:" + w.base
+		} else if spec.Config.DigitNames {
+			nameBase = "digit:" + w.base
 		}
 		if spec.Config.ExpiredSigners {
 			nameBase = "expired:" + nameBase
@@ -785,7 +797,7 @@ func pkiWithName(base string, i int, keys [2]string) *world.SimplePKI {
 	expired := strings.HasPrefix(base, "expired:")
 	base = strings.TrimPrefix(base, "expired:")
 	p := &world.SimplePKI{}
-	p.Root = gen.Issue(gen.CertSpec{Key: keys[0], Subject: gen.NameSpec{{{T: "O", V: "verif"}}, {{T: "CN", V: fmt.Sprintf("%s root %d", strings.TrimPrefix(base, "t61:"), i)}}}, SerialHex: "01", IsCA: true}, nil)
+	p.Root = gen.Issue(gen.CertSpec{Key: keys[0], Subject: gen.NameSpec{{{T: "O", V: "verif"}}, {{T: "CN", V: fmt.Sprintf("%s root %d", strings.TrimPrefix(strings.TrimPrefix(base, "t61:"), "digit:"), i)}}}, SerialHex: "01", IsCA: true}, nil)
 	if keys[1] != "" {
 		p.Inter = gen.Issue(gen.CertSpec{Key: keys[1], Subject: issuerName(base, i), SerialHex: "02", IsCA: true, Expired: expired}, p.Root)
 	} else {
